@@ -150,6 +150,11 @@ func ruleF1(p *Prog) *RuleResult {
 			res.ok(c, s.pos, strings.Join(s.kinds, ","))
 		case partialKindSwitches[s.fn] == strings.Join(s.kinds, ","):
 			res.ok(c, s.pos, "partial switch frozen in the model: "+strings.Join(s.kinds, ","))
+		case len(s.kinds) == 1 && partialKindSwitches[s.fn] == "":
+			// `switch x.(type) { case *T: ... }` with a single case is the type-test idiom (the same as
+			// `if _, ok := x.(*T); ok`), not a dispatch over the kinds; a function that is in the table
+			// above must still match its entry, so a dispatch that loses cases is not excused by this
+			res.ok(c, s.pos, "single-case type test on "+s.kinds[0])
 		default:
 			res.bad(c, s.pos, fmt.Sprintf("type switch over a container handles only %v; %v would fall through", s.kinds, missing))
 		}
